@@ -4,7 +4,6 @@
 package kit
 
 import (
-	"sync"
 	"encoding/json"
 	"fmt"
 	"go/ast"
@@ -13,6 +12,7 @@ import (
 	"os"
 	"sort"
 	"strings"
+	"sync"
 
 	"golang.org/x/tools/go/packages"
 )
